@@ -1089,7 +1089,7 @@ fn builtin_sort(args: Vec<Rc<Object>>) -> Result<Rc<Object>, String> {
             arr.elements.borrow_mut().sort();
             Ok(Rc::clone(&args[0]))
         }
-        _ => Ok(Rc::new(Object::Null)),
+        _ => Err(String::from("argument should be an array")),
     }
 }
 
@@ -1103,7 +1103,7 @@ fn builtin_chars(args: Vec<Rc<Object>>) -> Result<Rc<Object>, String> {
         Object::Str(s) => Ok(Rc::new(Object::Arr(Rc::new(Array::new(
             s.chars().map(|c| Rc::new(Object::Char(c))).collect(),
         ))))),
-        _ => Ok(Rc::new(Object::Null)),
+        _ => Err(String::from("argument should be a string")),
     }
 }
 
@@ -1141,7 +1141,7 @@ fn builtin_join(args: Vec<Rc<Object>>) -> Result<Rc<Object>, String> {
             }
             Ok(Rc::new(Object::Str(s)))
         }
-        _ => Ok(Rc::new(Object::Null)),
+        _ => Err(String::from("first argument should be an array of chars")),
     }
 }
 
